@@ -202,6 +202,19 @@ def _check_construct(case, ctx):
         c = p.copy()
         if _angle_ok(ctx, "copy", c[2], XA.frac(p[2])):
             return
+        # construction from .g2o text (the importer builds poses too): vertex pose and odometry measurement
+        line = "VERTEX_SE2 7 %r %r %r" % (float(case["xy"][0]), float(case["xy"][1]), float(t))
+        vx = gs.Vertex.from_g2o(line)
+        if vx is None or type(vx.pose) is not gs.PoseSE2:
+            return ctx.fail("se2-import", "Vertex.from_g2o(%r) returned %r" % (line, vx))
+        if _angle_ok(ctx, "Vertex.from_g2o(VERTEX_SE2 ...)", vx.pose[2], XA.frac(t)):
+            return
+        line = "EDGE_SE2 7 8 %r %r %r 1 0 0 1 0 1" % (float(case["xy"][0]), float(case["xy"][1]), float(t))
+        ex = gs.EdgeOdometry.from_g2o(line, {})
+        if ex is None or type(ex.estimate) is not gs.PoseSE2:
+            return ctx.fail("se2-import", "EdgeOdometry.from_g2o(%r) returned %r" % (line, ex))
+        if _angle_ok(ctx, "EdgeOdometry.from_g2o(EDGE_SE2 ...)", ex.estimate[2], XA.frac(t)):
+            return
         m = gs.PoseSE2.from_matrix(p.to_matrix())
         th = float(m[2])
         if not (-math.pi <= th <= math.pi):
